@@ -77,6 +77,40 @@ def srAnswer (opt : Bool) (ws : List String) : String :=
     | _, _, _, _, _ => "bad-line"
   | _ => "bad-line"
 
+/-- `dce RET (b X OP A B | p A)*` with operands `v<k>` / `i<n>` -/
+partial def parseS : List String → Option (List SStmt)
+  | [] => some []
+  | "b" :: x :: o :: a :: b :: rest =>
+    match exprOf x, opOf o, operandOf a, operandOf b, parseS rest with
+    | some (.var x), some o, some a, some b, some r => some (.bin x o a b :: r)
+    | _, _, _, _, _ => none
+  | "p" :: a :: rest =>
+    match operandOf a, parseS rest with
+    | some a, some r => some (.print a :: r)
+    | _, _ => none
+  | _ => none
+
+def dceAnswer (ws : List String) : String :=
+  match ws with
+  | ret :: rest =>
+    match operandOf ret, parseS rest with
+    | some r, some p =>
+      let kept := (dce p r.vars).1.filterMap fun s => match s with
+        | .bin x _ _ _ => some ("v" ++ pad2 x)
+        | .print _ => none
+      "kept " ++ (if kept.isEmpty then "-" else ",".intercalate kept)
+    | _, _ => "bad-line"
+  | _ => "bad-line"
+
+def licmAnswer (ws : List String) : String :=
+  match parseS ws with
+  | some p =>
+    let h := (licm p [0]).1.filterMap fun s => match s with
+      | .bin x _ _ _ => some ("v" ++ pad2 x)
+      | .print _ => none
+    "hoisted " ++ (if h.isEmpty then "-" else ",".intercalate h)
+  | none => "bad-line"
+
 def step (_ : Unit) (line : String) : Unit × String :=
   let ans : String :=
     match words line with
@@ -131,6 +165,8 @@ def step (_ : Unit) (line : String) : Unit × String :=
         | .panic => "panic"
         | .keep => "stmt " ++ showTriple (flexUnwrapped o (opdToExpr a) (opdToExpr b))
       | _, _, _ => "bad-line"
+    | "dce" :: rest => dceAnswer rest
+    | "licm" :: rest => licmAnswer rest
     | "srloop" :: rest => srAnswer true rest
     | "srorig" :: rest => srAnswer false rest
     | [kind, g, i0, st, b, m, c, fuel] =>
